@@ -25,11 +25,17 @@ pub struct World {
     pub stderr: u8,
     pub merged: bool,    // 2>&1 on one open file description (stdout's sink)
     pub decoys: bool,
+    pub clock: u64,      // seconds reported by the simulated clock (0 = reference value)
+    pub pid: u32,        // value reported by getpid (0 = reference value)
+    pub clock_step_ms: u64, // simulated time passing per clock read (0 = 1 ms); large = clock jumps
+    // directed dimensions: environment variables / relative files the program was seen asking for
+    pub extra_env: Vec<(String, String)>,
+    pub extra_files: Vec<(String, String)>,
 }
 
 pub const DIMS: &[&str] = &[
     "rand", "heap_pad", "env_pad", "stack", "malloc_tun", "cwd_name", "rel", "file_name", "spelling", "argv0",
-    "env_kind", "locale", "rust_backtrace", "stdin", "stdout", "stderr", "merged", "decoys",
+    "env_kind", "locale", "rust_backtrace", "stdin", "stdout", "stderr", "merged", "decoys", "clock", "pid", "extra_env", "extra_files",
 ];
 
 impl World {
@@ -53,6 +59,11 @@ impl World {
             stderr: 0,
             merged: false,
             decoys: false,
+            clock: 0,
+            pid: 0,
+            clock_step_ms: 0,
+            extra_env: vec![],
+            extra_files: vec![],
         }
     }
 
@@ -77,6 +88,11 @@ impl World {
             "stderr" => self.stderr = 1 + rng.below(5) as u8,
             "merged" => self.merged = true,
             "decoys" => self.decoys = true,
+            "clock" => {
+                self.clock = [1, 946_684_800, 2_000_000_000, 4_102_444_800, 1 + rng.below(4_000_000_000)][rng.usize_below(5)];
+                self.clock_step_ms = [0, 0, 1000, 3_600_000, 86_400_000][rng.usize_below(5)];
+            }
+            "pid" => self.pid = [1, 2, 99_999, 4_194_303, 1 + rng.below(4_000_000) as u32][rng.usize_below(5)],
             _ => {}
         }
     }
@@ -102,6 +118,13 @@ impl World {
             "stderr" => self.stderr = r.stderr,
             "merged" => self.merged = r.merged,
             "decoys" => self.decoys = r.decoys,
+            "clock" => {
+                self.clock = r.clock;
+                self.clock_step_ms = r.clock_step_ms;
+            }
+            "pid" => self.pid = r.pid,
+            "extra_env" => self.extra_env = vec![],
+            "extra_files" => self.extra_files = vec![],
             _ => {}
         }
     }
@@ -126,6 +149,10 @@ impl World {
             "stderr" => self.stderr.to_string(),
             "merged" => (self.merged as u8).to_string(),
             "decoys" => (self.decoys as u8).to_string(),
+            "clock" => bucket(self.clock),
+            "pid" => bucket(u64::from(self.pid)),
+            "extra_env" => self.extra_env.len().min(3).to_string(),
+            "extra_files" => self.extra_files.len().min(3).to_string(),
             _ => String::new(),
         }
     }
@@ -175,6 +202,9 @@ impl World {
             "env_kind": self.env_kind, "locale": self.locale, "rust_backtrace": self.rust_backtrace,
             "stdin": self.stdin, "stdout": self.stdout, "stderr": self.stderr,
             "merged": self.merged, "decoys": self.decoys,
+            "clock": self.clock, "pid": self.pid, "clock_step_ms": self.clock_step_ms,
+            "extra_env": self.extra_env.iter().map(|(k, v)| json!([k, v])).collect::<Vec<_>>(),
+            "extra_files": self.extra_files.iter().map(|(k, v)| json!([k, v])).collect::<Vec<_>>(),
         })
     }
 
@@ -204,6 +234,14 @@ impl World {
         w.stderr = u("stderr")? as u8;
         w.merged = b("merged")?;
         w.decoys = b("decoys")?;
+        w.clock = u("clock").unwrap_or(0);
+        w.pid = u("pid").unwrap_or(0) as u32;
+        w.clock_step_ms = u("clock_step_ms").unwrap_or(0);
+        let pairs = |k: &str| -> Vec<(String, String)> {
+            j.get(k).and_then(J::as_array).map(|a| a.iter().filter_map(|x| Some((x.get(0)?.as_str()?.to_string(), x.get(1)?.as_str()?.to_string()))).collect()).unwrap_or_default()
+        };
+        w.extra_env = pairs("extra_env");
+        w.extra_files = pairs("extra_files");
         Some(w)
     }
 }
